@@ -231,7 +231,7 @@ def handleGeom (j : Json) : Json :=
     let h1 := rgDistance true n1 d1
     let h2 := rgDistance true n2 d2
     let h3 := rgDistance true n3 d3
-    let ks : List Rat := (allIdx 1 n1 n2 n3 1).map fun i => kAxisSq n1 h1 i.j1 + kAxisSq n2 h2 i.j2 + kAxisSq n3 h3 i.j3
+    let ks : List Rat := (allIdx 1 n1 n2 n3 1).map (kSq n1 n2 n3 h1 h2 h3)
     jObj [("dvol_pos", jRat (rgDvol false dims)), ("dvol_harm", jRat (rgDvol true dims)), ("ksq", jRats ks)]
   | _, _ => jErr "bad-args"
 
